@@ -1,6 +1,6 @@
 (* C18 property theorems.  Statements + exact + Check pin + Print Assumptions only. *)
 From ZV.Common Require Import Base.
-From ZV.C18 Require Import Model ProofsQueue ProofsOrder ProofsProgress ProofsComplete ProofsPar.
+From ZV.C18 Require Import Model ProofsQueue ProofsOrder ProofsProgress ProofsComplete ProofsPar ProofsStream.
 From Coq Require Import Permutation.
 Open Scope N_scope.
 
@@ -201,6 +201,35 @@ Check reduce_error_surfaces :
     parallel_reduce_k op ident (fiber_chunk max_workers (length xs)) xs = None /\
     ((0 < ncpu)%nat -> parallel_reduce_k op ident (global_chunk ncpu (length xs)) xs = None).
 Print Assumptions reduce_error_surfaces.
+
+(* execute_stream (after the repair): for every number of stages, all stage functions, all inputs and every
+   interleaving of the stage tasks, what has been delivered on the output channel is a prefix of the
+   sequential result (each stage applied in input order, stopping at its first failure) - never a
+   shifted, reordered or foreign result. *)
+Theorem stream_prefix :
+  forall (A : Type) (fs : list (A -> option A)) (inputs : list A) (sched : list nat),
+    exists rest, stream_want fs inputs = stream_output fs inputs (stream_run fs inputs sched) ++ rest.
+Proof. exact (@stream_prefix_proof). Qed.
+Check stream_prefix :
+  forall (A : Type) (fs : list (A -> option A)) (inputs : list A) (sched : list nat),
+    exists rest, stream_want fs inputs = stream_output fs inputs (stream_run fs inputs sched) ++ rest.
+Print Assumptions stream_prefix.
+
+(* ... and when all stage tasks have ended and none reported a failure (execute_stream returns Ok), the
+   output is the complete sequential result: one result per input.  Contrapositive: a missing result
+   implies execute_stream returns Err. *)
+Theorem stream_complete :
+  forall (A : Type) (fs : list (A -> option A)) (inputs : list A) (sched : list nat),
+    let st := stream_run fs inputs sched in
+    stream_finished st = true -> stream_err st = false ->
+    stream_output fs inputs st = stream_want fs inputs /\ length (stream_output fs inputs st) = length inputs.
+Proof. exact (@stream_complete_proof). Qed.
+Check stream_complete :
+  forall (A : Type) (fs : list (A -> option A)) (inputs : list A) (sched : list nat),
+    let st := stream_run fs inputs sched in
+    stream_finished st = true -> stream_err st = false ->
+    stream_output fs inputs st = stream_want fs inputs /\ length (stream_output fs inputs st) = length inputs.
+Print Assumptions stream_complete.
 
 (* BatchCollector: for every history of add / flush, the emitted batches followed by the buffer are the
    added items in order; with max_batch_size >= 1 no batch is empty or longer than max_batch_size. *)
